@@ -187,9 +187,22 @@ GroupVerdicts(k) ==
           ELSE IF f = k \/ GroupSummary(Trace[f]) = GroupSummary(o) THEN {}
           ELSE {Fail(o.case.group.p, rel, "")}
 
+(* an answer that cannot be written as JSON (a NaN or infinite number in it) is no answer: reported for the case's own *)
+(* property and, when exactly one bias fired (so that it is unambiguous who produced the number), for that bias's      *)
+Unserialisable(o) == o.status = 200 /\ Has(o.resp, "unmarshalable")
+BiasPropOf(name) == IF name = "criteriaOmission" THEN "C15" ELSE IF name = "preferenceReversal" THEN "C16"
+                    ELSE IF name = "fatigue" THEN "C17" ELSE IF name = "anchoring" THEN "C19" ELSE "C18"
+UnserialisableVerdicts(o) ==
+  LET evs == IF Has(o, "events") THEN BiasEvents(o) ELSE <<>>
+      firedAt == {i \in DOMAIN evs : evs[i].fired}
+  IN {Fail(FailProp(o), "response-not-serialisable", "")}
+     \cup (IF Cardinality(firedAt) = 1 /\ Len(ReqBiases(o)) = Len(evs)
+           THEN {Fail(BiasPropOf(ReqBiases(o)[CHOOSE i \in firedAt : TRUE].name), "response-not-serialisable", "")} ELSE {})
+
 Verdicts(k) ==
   LET o == Trace[k] IN
-  StatusVerdicts(o) \cup GridVerdicts(o) \cup MethodVerdicts(o) \cup BiasVerdicts(o) \cup GroupVerdicts(k)
+  IF Unserialisable(o) THEN UnserialisableVerdicts(o)
+  ELSE StatusVerdicts(o) \cup GridVerdicts(o) \cup MethodVerdicts(o) \cup BiasVerdicts(o) \cup GroupVerdicts(k)
 
 Init == l = 0 /\ done = FALSE
 
